@@ -4,7 +4,8 @@ scratch worktree of /repo (never /repo itself), run the quick check of the prope
 (and of meta['also'] properties) against that tree and record what was reported in
 seeded/<id>/result.json.  The scratch worktree is removed afterwards."""
 import json, os, subprocess, sys, re, shutil
-V = "/verif"
+V = os.environ.get("VERIF_ROOT", "/verif")   # where the checks run (a snapshot while builders edit /verif)
+S = "/verif/seeded"                            # where the seeds and their results live
 WT = "/tmp/wt-seedtest-%d" % os.getpid()
 
 def sh(cmd, **kw):
@@ -55,13 +56,13 @@ def confirm(d):
     sh("git -C %s checkout -q -- . && git -C %s clean -fdq" % (WT, WT))
     return out
 
-ids = sys.argv[1:] or sorted(d for d in os.listdir(V + "/seeded") if os.path.exists(V + "/seeded/" + d + "/patch.diff"))
+ids = sys.argv[1:] or sorted(d for d in os.listdir(S) if os.path.exists(S + "/" + d + "/patch.diff"))
 sh("git -C /repo worktree remove --force %s; git -C /repo worktree prune" % WT)
 r = sh("git -C /repo worktree add -q %s HEAD" % WT)
 assert r.returncode == 0, r.stdout
 try:
     for i in ids:
-        d = "%s/seeded/%s" % (V, i)
+        d = "%s/%s" % (S, i)
         meta = json.load(open(d + "/meta.json"))
         props = [meta["property"]] + list(meta.get("also", []))
         conf = confirm(d) if (CONFIRM and os.path.exists(d + '/demo.rs')) else None
